@@ -4,6 +4,7 @@ CONSTANTS
   MaxH = 2
   MaxCh = 2
   Dev_HandleReuse = FALSE
+  Dev_SplitNotify = FALSE
   Dev_KeepOld = FALSE
 SPECIFICATION Spec
 CONSTRAINT Bound
